@@ -94,6 +94,12 @@ func edgeCmp(b *ssa.BasicBlock, si int) (subj ssa.Value, isLen bool, op token.To
 	}
 	kk, isK := ConstInt(y)
 	if !isK {
+		// x == nil / x != nil: "x is 0" in the same terms
+		if c, isC := y.(*ssa.Const); isC && c.IsNil() && (o == token.EQL || o == token.NEQ) {
+			kk, isK = 0, true
+		}
+	}
+	if !isK {
 		return
 	}
 	switch o {
@@ -565,4 +571,50 @@ func blockReaches(from, to *ssa.BasicBlock) bool {
 		work = append(work, b.Succs...)
 	}
 	return false
+}
+
+// DominatesBarInfeasible: every way from the entry to block site passes through block must, not
+// counting ways that enter a join along an edge which some φ of that join shows to be
+// contradicted by the tests in front of site (an error carried out of a helper's body along with
+// the results, when site lies behind `err == nil`).
+func (m *Model) DominatesBarInfeasible(must, site *ssa.BasicBlock) bool {
+	if m.Dominates(must, site) {
+		return true
+	}
+	fn := site.Parent()
+	seen := map[*ssa.BasicBlock]bool{}
+	work := []*ssa.BasicBlock{fn.Blocks[0]}
+	for len(work) > 0 {
+		b := work[len(work)-1]
+		work = work[:len(work)-1]
+		if seen[b] || b == must {
+			continue
+		}
+		seen[b] = true
+		if b == site {
+			return false
+		}
+		for _, sc := range b.Succs {
+			// the edge b -> sc
+			infeasible := false
+			for ei, pr := range sc.Preds {
+				if pr != b {
+					continue
+				}
+				for _, in := range sc.Instrs {
+					ph, ok := in.(*ssa.Phi)
+					if !ok {
+						break
+					}
+					if m.PhiEdgeInfeasibleAt(ph, ei, site) {
+						infeasible = true
+					}
+				}
+			}
+			if !infeasible {
+				work = append(work, sc)
+			}
+		}
+	}
+	return true
 }
